@@ -1,5 +1,5 @@
 #!/usr/bin/python3
-"""Run every patch under mutants/ and seeded/ against the check of its property; write mutants/RESULTS.tsv.
+"""Run every patch under mutants/ and seeded*/ against the check of its property; write mutants/RESULTS.tsv.
    /repo is patched and restored by bin/mutant.sh - nothing else may use /repo while this runs."""
 import glob, json, os, re, subprocess, sys
 os.chdir('/verif')
@@ -20,7 +20,7 @@ for p in sorted(glob.glob('mutants/*.diff')):
         jobs.append((p, commit_prop[m.group(1)]))
     else:
         print('no property for', b)
-for d in sorted(glob.glob('seeded/C??')) + sorted(glob.glob('seeded2/C??')) + sorted(glob.glob('seeded3/C??')):
+for d in sorted(glob.glob('seeded/C??')) + sorted(glob.glob('seeded2/C??')) + sorted(glob.glob('seeded3/C??')) + sorted(glob.glob('seeded4/C??')):
     jobs.append((d + '/patch.diff', os.path.basename(d)))
 only = [a for a in sys.argv[1:] if not a.startswith('-')]
 NW = 4
